@@ -153,7 +153,7 @@ def case_lm(H, sname, mk_strategy, reject, ncalls, raise_at=None):
                 bad.append('call %d: %d trials with reject=%d' % (c, trials, reject))
         return bool(bad), '; '.join(bad[:3]) or 'bookkeeping consistent'
 
-    for ctx, (hist, slog, xs, inner) in run_paths(H, name, prog, max_paths=(10 if H.quick else 40), max_decisions=60, feas_timeout_ms=(250 if H.quick else 800)):
+    for ctx, (hist, slog, xs, inner) in run_paths(H, name, prog, max_paths=(10 if H.quick else 24), max_decisions=60, feas_timeout_ms=(250 if H.quick else 600)):
         pn = H.paths
         hyp = H.hyps_of(ctx)
         to = 10 if H.quick else 90
